@@ -32,6 +32,11 @@ def _iso_child(conn, fn, args):
         conn.send(("err", traceback.format_exc()))
     finally:
         conn.close()
+        try:
+            from . import configs
+            configs.cleanup_tmp()
+        except Exception:
+            pass
         os._exit(0)
 
 
